@@ -108,7 +108,7 @@ def opDEC (args obs : List String) : Option DecOut :=
         let f13 := match used with
           | "ok" :: c :: _ =>
             match bd, c.toNat? with
-            | some k, some c => if c == k then [] else [s!"C13 consumed={c} boundary={k}"]
+            | some k, some c => if c == k then [] else [s!"C13 consumed={c} boundary={k}", s!"C01 a successful decode left bytes of its own message unread or read into what follows (consumed={c}, value ends at {k})"]
             | none, _ => ["C13 accepted-without-a-complete-value", "C10 prefix-accepted"]
             | _, none => ["C13 bad-consumed"]
           | _ => []
@@ -252,8 +252,17 @@ def opRT (args obs : List String) : Option DecOut :=
                  | _ => []) ++
                 (if Spec.extZeroAllFixext8 (gb.length + 1) gb then [] else ["C02 EventTime-not-fixext8"])
               | _ => if name == "PCK" then [] else ["C02 not-one-msgpack-value"]
+            -- C02: what the specification parser reads from the real bytes is what it reads from the encoding the
+            -- theorems are about (C02_T: that one denotes the message's fields)
+            let f02b := match menc with
+              | some mb =>
+                (match parse mb, parse gb with
+                 | some (om, _), some (og, _) =>
+                   if renderObj om == renderObj og then [] else ["C02 the bytes on the wire do not denote the message's own fields (tag / time / record / options as the specification parser reads them)"]
+                 | _, _ => [])
+              | none => []
             let f09 := if menc.isNone then ["C09 unencodable-value-encoded"] else []
-            some { corr := corr, fails := f01 ++ f02 ++ f09, branch := s!"rt.{name}.{ep}{dp}.ok" }
+            some { corr := corr, fails := f01 ++ f02 ++ f02b ++ f09, branch := s!"rt.{name}.{ep}{dp}.ok" }
         | [] => none
     | _, _ => none
   | _ => none
@@ -313,7 +322,8 @@ def opCHUNK (args obs : List String) : Option DecOut :=
               | none => "err"
             -- msgp v1.1.9 `Reader.Skip` fails on a value in the ext32 format: recorded finding, named apart
             let tagx := if hasExt32Tok (b.length + 1) b then "C11 ext32-skip: a value in the ext32 format is in the message; " else "C11 "
-            (true, if go == want then [] else [s!"{tagx}option-map-chunk=[{want}] GetChunk=[{go}]"])
+            (true, if go == want then [] else [s!"{tagx}option-map-chunk=[{want}] GetChunk=[{go}]"] ++
+              (if tagx == "C11 " then ["C12 the id RawMessage.Chunk / GetChunk reports is not the id the message carries on the wire"] else []))
           else (false, [])
         | _ => (false, [])
       -- the model's `skip` is the slice-path one; on inputs with an ext32 token the stream `Skip` of the library
@@ -484,7 +494,10 @@ def opHIST (op : String) (args obs : List String) : Option DecOut :=
       let f13 := if goOk && (specN.isNone || specN != goCount) then
           ["C13 UnmarshalPacked reported success although the stream is not exactly one complete value per returned entry",
            "C03 UnmarshalPacked reported success on a stream that is not a run of complete entries"] else []
-      mk (if m == go then none else some s!"model=[{m}] go=[{go}]") f13 (if okAll then "ok" else "err")
+      -- on a stream that is a run of well-formed entries the model's result is, by C03_packed / C19_roundtrip,
+      -- exactly those entries with their instants: a different answer is a wrong answer
+      let f03 := if okAll && m != go then ["C03 UnmarshalPacked did not return exactly the entries (instants, records) the stream holds"] else []
+      mk (if m == go then none else some s!"model=[{m}] go=[{go}]") (f13 ++ f03) (if okAll then "ok" else "err")
   | "MM", _ => mk none [] "-"
   | "GCH", [hx] =>
     match opCHUNK ["h", hx] main with
